@@ -117,6 +117,26 @@ fn parse_stream(bytes: &[u8], max: usize) -> Vec<PRes> {
     }
 }
 
+/// like msg_read, recording what every read call returned (for TraceFraming)
+fn msg_read_traced(bytes: &[u8], sched: &[usize], rd: usize, reads: &mut Vec<usize>) -> Out<Vec<u8>> {
+    let cell = std::cell::RefCell::new(Vec::new());
+    let r = guard(|| -> Result<Vec<u8>, String> {
+        let src = SchedBufReader::new(SchedReader::new(bytes.to_vec(), sched.to_vec()));
+        let mut m = Message::from_bytes(src).map_err(|e| e.to_string())?;
+        let mut out = Vec::new();
+        let mut b = vec![0u8; rd];
+        loop {
+            let n = m.read(&mut b).map_err(|e| e.to_string())?;
+            if n == 0 { break; }
+            cell.borrow_mut().push(n);
+            out.extend_from_slice(&b[..n]);
+        }
+        Ok(out)
+    });
+    *reads = cell.into_inner();
+    r
+}
+
 fn msg_read(bytes: &[u8], sched: &[usize], rd: usize) -> Out<Vec<u8>> {
     guard(|| -> Result<Vec<u8>, String> {
         let src = SchedBufReader::new(SchedReader::new(bytes.to_vec(), sched.to_vec()));
@@ -139,6 +159,7 @@ fn msg_read(bytes: &[u8], sched: &[usize], rd: usize) -> Out<Vec<u8>> {
 }
 
 pub fn run(cases_path: &str, out_path: &str, _tier: &str, seed: u64) {
+    let trace = std::sync::Mutex::new(std::io::BufWriter::new(std::fs::File::create(format!("{out_path}.trace_framing.ndjson")).expect("trace file")));
     let cases = read_cases(cases_path);
     let sink = Sink::new(out_path);
     let nontrivial = std::sync::atomic::AtomicU64::new(0);
@@ -236,7 +257,15 @@ pub fn run(cases_path: &str, out_path: &str, _tier: &str, seed: u64) {
                         for rd in [0usize, 7, 8192] {
                             // the message must be the only thing in the stream
                             let s2 = frame(new_fmt, tag, &chunks, &body, supplied, wide);
-                            let r = msg_read(&s2, sched, rd);
+                            let mut reads = Vec::new();
+                            let r = if rd == 0 { msg_read(&s2, sched, rd) } else { msg_read_traced(&s2, sched, rd, &mut reads) };
+                            if !r.is_panic() && ((rd == 7 && total <= 3000) || rd == 8192) {
+                                use std::io::Write;
+                                let mut t = trace.lock().unwrap();
+                                let _ = writeln!(t, "{}", json!({"ev": "init", "fmt": c["f"]["fmt"], "tag": tag, "chunks": c["f"]["chunks"], "supplied": supplied}));
+                                for k in &reads { let _ = writeln!(t, "{}", json!({"ev": "out", "k": k})); }
+                                let _ = writeln!(t, "{}", if r.is_ok() { json!({"ev": "eof"}) } else { json!({"ev": "err"}) });
+                            }
                             let ok = match (&r, expect_ok) {
                                 (Out::Ok(d), true) => d[..] == body[6..],
                                 (Out::Err(_), false) => true,
@@ -364,6 +393,7 @@ pub fn run(cases_path: &str, out_path: &str, _tier: &str, seed: u64) {
             }
         }
     });
+    { use std::io::Write; let _ = trace.lock().unwrap().flush(); }
     sink.finish(json!({"cases": cases.len(), "nontrivial": nontrivial.load(std::sync::atomic::Ordering::Relaxed)}));
 }
 
